@@ -285,7 +285,10 @@ def run_shard(ctx, spec):
         codes.extend(CUSTOMARY)
         from .c07 import table_keys
         codes.extend(table_keys())
+    # '$' also matches before a final newline, so a code read with readlines() and never stripped is an accepted code too
+    codes.extend([c + '\n' for c in codes[::4] if not c.endswith('\n')])
     codes = [c for c in dict.fromkeys(codes) if mon.check(c) is not None and len(c.upper()) == len(c)]
+    ctx.count('eval.codes-with-final-newline', sum(1 for c in codes if c.endswith('\n')))
     full = {'discipline_sort_key', 'text_discipline_sort_key', 'get_distance', 'get_duration_event_time', 'unit_name', 'event_code_to_kind'}
     for c in codes:
         attach.call(u.discipline_sort_key, c)
